@@ -117,6 +117,8 @@ fn c01(tier: Tier) -> Vec<Space> {
         asmprops::chain(p),
         asmprops::groups(p),
         asmprops::soak(p),
+        asmprops::soak_long(p, if tier == Tier::Quick { 200_000 } else { 1_000_000 }),
+        asmprops::wrap(p, tier == Tier::Thorough),
         line_numeric(p),
         line_lengths(p),
         asmprops::hist_space(p, if tier == Tier::Quick { 4 } else { 5 }),
@@ -148,6 +150,8 @@ fn c18(tier: Tier) -> Vec<Space> {
         asmprops::chain(p),
         asmprops::groups(p),
         asmprops::soak(p),
+        asmprops::soak_long(p, if tier == Tier::Quick { 200_000 } else { 1_000_000 }),
+        asmprops::wrap(p, tier == Tier::Thorough),
         line_numeric(p),
         line_lengths(p),
         asmprops::hist_space(p, if tier == Tier::Quick { 4 } else { 5 }),
